@@ -60,6 +60,10 @@ class SimLimit(BaseException):
     """Harness step cap exceeded (reported as harness error, never as a violation)."""
 
 
+class SimUnsupported(SimLimit):
+    """The program asked a stub for something it does not model (harness error, never a violation)."""
+
+
 def is_main():
     return threading.get_ident() == MAIN_IDENT
 
@@ -392,6 +396,16 @@ class FakeGit:
         self._anc_cache[name] = seen
         return seen
 
+    def first_parent_chain(self, name):
+        out = set()
+        commits = self.state["commits"]
+        c = name
+        while c is not None and c not in out:
+            out.add(c)
+            ps = commits[c]
+            c = ps[0] if ps else None
+        return out
+
     def resolve(self, sym):
         st = self.state
         if sym == "HEAD":
@@ -434,20 +448,49 @@ class FakeGit:
                 return 128, ""
             return (1 if st.get("dirty") else 0), ""
         if a[:2] == ["merge-base", "--is-ancestor"]:
-            anc, desc = self._by_hash(a[2]), self._by_hash(a[3])
+            anc = self._by_hash(a[2]) or self.resolve(a[2])
+            desc = self._by_hash(a[3]) or self.resolve(a[3])
             if anc is None or desc is None:
                 return 128, ""
             return (0 if anc in self.ancestors(desc) else 1), ""
-        if a[:2] == ["rev-list", "--count"]:
-            x = self._by_hash(a[2])
-            y = self._by_hash(a[3].lstrip("^")) if len(a) > 3 else None
-            if x is None or (len(a) > 3 and y is None):
+        if a[0] == "rev-list":
+            # rev-list [--count] [--first-parent] <included>... ^<excluded>... | <excl>..<incl>
+            opts = [x for x in a[1:] if x.startswith("--")]
+            revs = [x for x in a[1:] if not x.startswith("--")]
+            unknown = [o for o in opts if o not in ("--count", "--first-parent")]
+            if unknown:
+                raise SimUnsupported("fake git: rev-list option %r is not modelled" % unknown)
+            inc, exc = [], []
+            for rv in revs:
+                if ".." in rv and "..." not in rv:
+                    lo, hi = rv.split("..", 1)
+                    exc.append(lo or "HEAD")
+                    inc.append(hi or "HEAD")
+                elif rv.startswith("^"):
+                    exc.append(rv[1:])
+                else:
+                    inc.append(rv)
+
+            def res(sym):
+                n = self._by_hash(sym)
+                return n if n is not None else self.resolve(sym)
+
+            inc_n, exc_n = [res(x) for x in inc], [res(x) for x in exc]
+            if None in inc_n or None in exc_n or not inc_n:
                 return 128, ""
-            n = len(self.ancestors(x) - (self.ancestors(y) if y else set()))
-            return 0, "%d\n" % n
+            first = "--first-parent" in opts
+            out = set()
+            for n in inc_n:
+                out |= self.first_parent_chain(n) if first else self.ancestors(n)
+            for n in exc_n:
+                # exclusions always remove the full ancestry of the excluded revision
+                out -= self.ancestors(n)
+            if "--count" in opts:
+                return 0, "%d\n" % len(out)
+            return 0, "".join(commit_hash(n) + "\n" for n in sorted(out))
         if a[0] == "ls-files":
             return 0, ""
-        return 1, ""
+        raise SimUnsupported("fake git: %r is not modelled" % (a,))
 
 
 # ------------------------------------------------------------------------------------------
@@ -495,6 +538,8 @@ class Sched:
         return out
 
     def at_block(self, acts):
+        """returns the list of environment events that happen before the blocked main thread gets to
+        run again (usually one; several = e.g. a few children exiting before cond is scheduled)"""
         acts = sorted(acts)
         if self.plan is not None:
             lst = self.plan.get("block", [])
@@ -502,10 +547,11 @@ class Sched:
             if self._bi < len(lst):
                 a = lst[self._bi]
                 self._bi += 1
-            if a not in acts:
-                a = acts[0]
-            self.rec_block.append(a)
-            return a
+            group = [x for x in (a.split("+") if a else []) if x in acts]
+            if not group:
+                group = [acts[0]]
+            self.rec_block.append("+".join(group))
+            return group
         b = self.bias
         if b == "fifo":
             a = acts[0] if self.rng.random() < 0.8 else self.rng.choice(acts)
@@ -513,8 +559,12 @@ class Sched:
             a = acts[-1] if self.rng.random() < 0.8 else self.rng.choice(acts)
         else:
             a = self.rng.choice(acts)
-        self.rec_block.append(a)
-        return a
+        group = [a]
+        while self.p_burst and len(group) < len(acts) and self.rng.random() < self.p_burst:
+            rest = [x for x in acts if x not in group]
+            group.append(self.rng.choice(rest))
+        self.rec_block.append("+".join(group))
+        return group
 
     def recorded(self):
         return {"async": self.rec_async, "block": self.rec_block}
@@ -1417,8 +1467,8 @@ class Sim:
             if not acts:
                 self.emit("DEADLOCK", why)
                 raise SimDeadlock(why)
-            a = self.sched.at_block(acts)
-            self.perform(a)
+            for a in self.sched.at_block(acts):
+                self.perform(a)
             self.block_iters += 1
             if self.block_iters > 200000:
                 raise SimLimit("block iteration cap exceeded")
@@ -1592,8 +1642,8 @@ class Sim:
                 inv.exit_hang = True
                 self.emit("EXITHANG")
                 break
-            a = self.sched.at_block(acts)
-            self.perform(a)
+            for a in self.sched.at_block(acts):
+                self.perform(a)
             guard += 1
             if guard > 200000:
                 raise SimLimit("exit drain cap exceeded")
